@@ -1,6 +1,7 @@
 package c05
 
 import (
+	"encoding/json"
 	"fmt"
 	"os"
 	"path/filepath"
@@ -12,6 +13,8 @@ import (
 	"time"
 
 	"pgregory.net/rapid"
+
+	"github.com/mithrandie/csvq/lib/query"
 
 	"verif/internal/fw"
 	"verif/internal/ref"
@@ -41,6 +44,13 @@ const avoidReplaceUnmatchedOrder = false
 // generator puts a COMMIT or ROLLBACK between two such statements.
 const avoidStdinSecondDMLLockTimeout = true
 
+// The LTSV reader of the dependency github.com/mithrandie/go-text v1.6.0
+// (ltsv/reader.go, "case ':': readingKey = false") drops every colon of a field
+// after the first one: the value a:b:c is written correctly by COMMIT but read
+// back as abc, and the next COMMIT of the table writes the damaged text into
+// cells no statement touched. The generator gives LTSV tables no text with a colon.
+const avoidLTSVValueColonLost = true
+
 func avoid(name string, dflt bool) bool {
 	for _, x := range strings.Split(os.Getenv("C05_NO_AVOID"), ",") {
 		if strings.TrimSpace(x) == name {
@@ -54,12 +64,26 @@ func avoid(name string, dflt bool) bool {
 // the case
 
 type histCase struct {
-	TKind string `json:"t_kind"` // file | temp | stdin
-	UKind string `json:"u_kind"` // "" (no second table) | file | temp
+	TKind string `json:"t_kind"`          // file | temp | stdin
+	UKind string `json:"u_kind"`          // "" (no second table) | file | temp
+	TFmt  string `json:"t_fmt,omitempty"` // file tables: "" (csv) | tsv | json | jsonl | ltsv
+	UFmt  string `json:"u_fmt,omitempty"`
+	TPos  string `json:"t_pos,omitempty"` // fixed: SPACES | [p1, p2, ...]
+	UPos  string `json:"u_pos,omitempty"`
 	T     *table `json:"t"`
 	U     *table `json:"u,omitempty"`
 	Ops   []opT  `json:"ops"`
+	CPU   int    `json:"cpu,omitempty"`   // --cpu of the second execution (0: 4)
+	TNew  bool   `json:"t_new,omitempty"` // the file table is created by CREATE TABLE inside the session and filled by INSERT; nothing is committed before the history
+	UNew  bool   `json:"u_new,omitempty"`
 }
+
+// created: the file tables that exist only inside the transaction when the history starts.
+func (c histCase) created() map[string]bool {
+	return map[string]bool{"t": c.TNew && c.TKind == "file", "u": c.UNew && c.UKind == "file"}
+}
+
+func (c histCase) anyCreated() bool { cr := c.created(); return cr["t"] || cr["u"] }
 
 func (c histCase) model() *model {
 	m := &model{tabs: map[string]*table{}}
@@ -73,9 +97,15 @@ func (c histCase) model() *model {
 }
 
 func (c histCase) naming() naming {
-	nm := naming{kind: map[string]string{"t": c.TKind}}
+	nm := naming{kind: map[string]string{"t": c.TKind}, ffmt: map[string]string{}, pos: map[string]string{}}
+	if c.TKind == "file" {
+		nm.ffmt["t"], nm.pos["t"] = c.TFmt, c.TPos
+	}
 	if c.UKind != "" {
 		nm.kind["u"] = c.UKind
+		if c.UKind == "file" {
+			nm.ffmt["u"], nm.pos["u"] = c.UFmt, c.UPos
+		}
 	}
 	return nm
 }
@@ -102,6 +132,58 @@ type gen struct {
 	pending    map[string]string // kinds of columns added by the operation under construction
 	subOuter   []bnd             // non-nil: expressions and predicates may hold scalar subqueries; the tables of the enclosing statement
 	ops        []opT
+	fixed      map[string]bool // fixed-length file tables: no payload column is added to them
+	noCtl      bool            // a table is an LTSV file: no generated text holds a tab or a line break
+	maxRows    int             // no statement grows a table beyond this
+	subqPct    int             // scale (percent) of the subquery probabilities
+	bulk       bool
+}
+
+// rawPool: cell texts of the payload column p. No predicate and no expression
+// of a generated statement reads p: its cells are only inserted, copied as a
+// whole (SET p = p2, SELECT p) or left alone, so the model needs no rule about
+// their type - only "all other cells are unchanged" and "the given value is
+// stored" apply, whatever the text looks like.
+var rawPool = []string{"007", "1.50", " x ", "a,b", `say "hi"`, "l1\nl2", "true", "2024-01-02 03:04:05", "Åä-日本", "-0", "1e3", "0x1F", "it's", "NULL", "tab\there", `back\slash`, "0123456789012345678901234567890123456789", "+5", ".5", "1,000", "null", " ", "\"", "a\r\nb"}
+
+func (g *gen) rawLit() node {
+	if g.noCtl {
+		return nStr(fw.PickU(g.t, "raw", rawPoolNoCtl))
+	}
+	return nStr(fw.PickU(g.t, "raw", rawPool))
+}
+
+// rawPoolNoCtl: the texts an LTSV field value may hold (no tab, no line break).
+var rawPoolNoCtl = func() []string {
+	var out []string
+	for _, s := range rawPool {
+		if !strings.ContainsAny(s, "\t\r\n") && !(strings.Contains(s, ":") && avoid("ltsv", avoidLTSVValueColonLost)) {
+			out = append(out, s)
+		}
+	}
+	return out
+}()
+
+func hasColon(tb *table) bool {
+	for _, r := range tb.Rows {
+		for _, v := range r {
+			if !v.IsNull() && strings.Contains(v.S, ":") {
+				return true
+			}
+		}
+	}
+	return false
+}
+
+func hasCtl(tb *table) bool {
+	for _, r := range tb.Rows {
+		for _, v := range r {
+			if !v.IsNull() && strings.ContainsAny(v.S, "\t\r\n") {
+				return true
+			}
+		}
+	}
+	return false
 }
 
 func copyKinds(k map[string]map[string]string) map[string]map[string]string {
@@ -136,8 +218,11 @@ func (g *gen) lit(kind string, nullPct int) node {
 	if g.pct("null", nullPct) {
 		return nNull()
 	}
-	if kind == "str" {
+	switch kind {
+	case "str":
 		return nStr(g.strLit())
+	case "raw":
+		return g.rawLit()
 	}
 	return nInt(g.intLit())
 }
@@ -157,6 +242,10 @@ func (g *gen) initTable(name string) {
 	if len(cols) < 2 {
 		cols = append(cols, "v")
 		kinds["v"] = "int"
+	}
+	if g.pct("col_p", 35) {
+		cols = append(cols, "p")
+		kinds["p"] = "raw"
 	}
 	n := fw.Weighted(g.t, "nrows", []int{4, 6, 12, 18, 20, 20, 20})
 	ids := rapid.Permutation([]int{1, 2, 3, 4, 5, 6, 7, 8, 9}).Draw(g.t, "ids")
@@ -186,6 +275,11 @@ func (g *gen) initTable(name string) {
 			case "w":
 				v = val.Int(int64(g.rng("w", 0, 5)))
 				if g.pct("wnull", 15) {
+					v = val.Null
+				}
+			case "p":
+				v = val.Str(fw.PickU(g.t, "raw", rawPool))
+				if g.pct("pnull", 15) {
 					v = val.Null
 				}
 			default:
@@ -225,7 +319,21 @@ func (g *gen) colNodes(bs []bnd, kind string, exclude map[string]bool) []node {
 
 // expr draws a value expression of the kind over the bindings.
 func (g *gen) expr(kind string, bs []bnd, exclude map[string]bool) node {
-	if g.subOuter != nil && g.pct("subq", 28) {
+	if kind == "raw" {
+		same := g.colNodes(bs, "raw", exclude)
+		w := []int{45, 45, 10}
+		if len(same) == 0 {
+			w[1] = 0
+		}
+		switch fw.Weighted(g.t, "rawexpr", w) {
+		case 0:
+			return g.rawLit()
+		case 1:
+			return fw.PickU(g.t, "col", same)
+		}
+		return nNull()
+	}
+	if g.subOuter != nil && g.pct("subq", 28*g.subqPct/100) {
 		if n, ok := g.subq(kind, exclude); ok {
 			if kind == "int" && g.pct("subq_plus", 30) {
 				return nBin("add", n, nInt(int64(g.rng("k", 1, 5))))
@@ -360,6 +468,95 @@ func (g *gen) subq(kind string, exclude map[string]bool) (node, bool) {
 	return n, true
 }
 
+// subqPred draws col [NOT] IN (SELECT z.c FROM tab z [WHERE ...]) or [NOT]
+// EXISTS (SELECT 1 FROM tab z WHERE ...) over the target of the enclosing
+// statement or the other table; the WHERE of the subquery may be correlated
+// with the row of the enclosing statement.
+func (g *gen) subqPred(col node) (node, bool) {
+	outer := g.subOuter
+	g.subOuter = nil
+	defer func() { g.subOuter = outer }()
+	tab := outer[0].tab
+	if names := g.m.names(); len(names) > 1 && g.pct("subq_other", 60) {
+		for _, t := range names {
+			if t != tab {
+				tab = t
+				break
+			}
+		}
+	}
+	ints := g.colsOfKind(tab, "int", nil)
+	if len(ints) == 0 {
+		return node{}, false
+	}
+	var oc []node
+	for _, b := range outer {
+		for _, c := range g.colsOfKind(b.tab, "int", nil) {
+			oc = append(oc, nCol(b.tab, c))
+		}
+	}
+	if g.pct("exists", 40) && len(oc) > 0 {
+		n := node{K: "exists", Q: tab, Neg: g.pct("notexists", 35)}
+		zc := ints[0]
+		if g.pct("otherkey", 25) {
+			zc = fw.PickU(g.t, "zkey", ints)
+		}
+		o := "="
+		if g.pct("nonequi", 20) {
+			o = fw.PickU(g.t, "relop", relOps)
+		}
+		w := nCmp(o, nCol(subqAlias, zc), fw.PickU(g.t, "outercol", oc))
+		if g.pct("and", 35) {
+			if p, ok := g.atom([]bnd{{subqAlias, tab}}); ok {
+				w = nBin("and", w, p)
+			}
+		}
+		n.A = []node{w}
+		return n, true
+	}
+	n := node{K: "insub", Q: tab, C: ints[0], Neg: g.pct("notin", 30), A: []node{col}}
+	if g.pct("otherkey", 25) {
+		n.C = fw.PickU(g.t, "zcol", ints)
+	}
+	if g.pct("subq_where", 60) {
+		if len(oc) > 0 && g.pct("subq_correlated", 30) {
+			n.A = append(n.A, nCmp(fw.PickU(g.t, "relop", relOps), nCol(subqAlias, fw.PickU(g.t, "zkey", ints)), fw.PickU(g.t, "outercol", oc)))
+		} else if p, ok := g.pred([]bnd{{subqAlias, tab}}); ok {
+			n.A = append(n.A, p)
+		}
+	}
+	return n, true
+}
+
+// srcForm draws how a table the statement only reads is reached.
+func (g *gen) srcForm(op *opT, tab string, pct int) {
+	if tab == "" || !g.pct("srcform", pct) {
+		return
+	}
+	op.Src, op.SrcTab = fw.PickU(g.t, "src", []string{"with", "derived"}), tab
+}
+
+// subqTable: the table a statement's subqueries read ("" if none or several).
+func subqTable(op opT) string {
+	reads := map[string]bool{}
+	for _, x := range op.Set {
+		hasSubq(x.E, reads, nil)
+	}
+	for _, x := range op.Sel {
+		hasSubq(x, reads, nil)
+	}
+	if op.Where != nil {
+		hasSubq(*op.Where, reads, nil)
+	}
+	if len(reads) != 1 {
+		return ""
+	}
+	for t := range reads {
+		return t
+	}
+	return ""
+}
+
 // existing: the non-NULL values of a column as literals.
 func (g *gen) existing(tab, col string) []node {
 	tb := g.m.tabs[tab]
@@ -401,7 +598,9 @@ func (g *gen) atom(bs []bnd) (node, bool) {
 	var cs []cand
 	for _, b := range bs {
 		for _, c := range g.m.tabs[b.tab].Cols {
-			cs = append(cs, cand{b, c, g.kinds[b.tab][c]})
+			if g.kinds[b.tab][c] != "raw" { // the payload column is never read by a predicate
+				cs = append(cs, cand{b, c, g.kinds[b.tab][c]})
+			}
 		}
 	}
 	if len(cs) == 0 {
@@ -418,9 +617,14 @@ func (g *gen) atom(bs []bnd) (node, bool) {
 	}
 	c := cs[fw.Weighted(g.t, "predcol", ws)]
 	col := nCol(c.b.q, c.c)
-	if c.k == "int" && g.subOuter != nil && g.pct("subq_atom", 22) {
+	if c.k == "int" && g.subOuter != nil && g.pct("subq_atom", 22*g.subqPct/100) {
 		if n, ok := g.subq("int", nil); ok {
 			return nCmp(fw.PickU(g.t, "relop", relOps), col, n), true
+		}
+	}
+	if c.k == "int" && g.subOuter != nil && g.pct("subq_pred", 14*g.subqPct/100) {
+		if n, ok := g.subqPred(col); ok {
+			return n, true
 		}
 	}
 	if c.k == "int" {
@@ -540,7 +744,7 @@ func (g *gen) ext(tabs ...string) bool {
 }
 
 func (g *gen) genInsert(T string) (opT, bool) {
-	room := maxRows - len(g.m.tabs[T].Rows)
+	room := g.maxRows - len(g.m.tabs[T].Rows)
 	if room < 1 {
 		return opT{}, false
 	}
@@ -554,11 +758,55 @@ func (g *gen) genInsert(T string) (opT, bool) {
 	for i := 0; i < n; i++ {
 		var r []node
 		for _, c := range cols {
+			if g.kinds[T][c] == "int" && g.pct("value_expr", 14*g.subqPct/100+4) {
+				r = append(r, g.valueExpr(T))
+				continue
+			}
 			r = append(r, g.lit(g.kinds[T][c], 12))
 		}
 		op.Rows = append(op.Rows, r)
 	}
+	if _, err := g.simulate(op); err != nil {
+		return op, false
+	}
 	return op, true
+}
+
+// valueExpr: an integer value of a VALUES list that is not a literal: arithmetic
+// on literals or an uncorrelated scalar subquery (an aggregate over the target
+// or the other table), e.g. (SELECT MAX(z.id) FROM t z) + 1.
+func (g *gen) valueExpr(T string) node {
+	if g.pct("arith", 30) {
+		return nBin(fw.PickU(g.t, "arithop", []string{"add", "sub", "mul"}), nInt(g.intLit()), nInt(int64(g.rng("k", 1, 5))))
+	}
+	tab := T
+	if names := g.m.names(); len(names) > 1 && g.pct("subq_other", 35) {
+		for _, t := range names {
+			if t != tab {
+				tab = t
+				break
+			}
+		}
+	}
+	n := node{K: "subq", Q: tab, Op: "countall"}
+	if ints := g.colsOfKind(tab, "int", nil); len(ints) > 0 {
+		n.Op = []string{"max", "min", "count", "countall", "sum"}[fw.Weighted(g.t, "subq_fn", []int{40, 15, 15, 15, 15})]
+		if n.Op != "countall" {
+			n.C = ints[0]
+			if g.pct("otherkey", 30) {
+				n.C = fw.PickU(g.t, "subq_col", ints)
+			}
+		}
+		if g.pct("subq_where", 40) {
+			if p, ok := g.pred([]bnd{{subqAlias, tab}}); ok {
+				n.A = []node{p}
+			}
+		}
+	}
+	if g.pct("subq_plus", 60) {
+		return nBin("add", n, nInt(int64(g.rng("k", 1, 5))))
+	}
+	return n
 }
 
 func (g *gen) selectList(T string, cols []string, O string) []node {
@@ -570,7 +818,7 @@ func (g *gen) selectList(T string, cols []string, O string) []node {
 }
 
 func (g *gen) genInsel(T, O string) (opT, bool) {
-	room := maxRows - len(g.m.tabs[T].Rows)
+	room := g.maxRows - len(g.m.tabs[T].Rows)
 	op := opT{K: "insel", T: T, O: O, Ext: g.ext(T, O)}
 	g.subOuter = []bnd{{O, O}}
 	defer func() { g.subOuter = nil }()
@@ -605,6 +853,7 @@ func (g *gen) genInsel(T, O string) (opT, bool) {
 			op = o
 		}
 	}
+	g.srcForm(&op, O, 25)
 	return op, true
 }
 
@@ -641,6 +890,11 @@ func (g *gen) genUpdate(T string) (opT, bool) {
 			return ef.subset, nil
 		})
 	}
+	if st := subqTable(op); st != "" {
+		g.srcForm(&op, st, 30)
+	} else {
+		g.srcForm(&op, T, 4) // an unused common table over the target itself
+	}
 	_, err := g.simulate(op)
 	return op, err == nil
 }
@@ -659,6 +913,9 @@ func (g *gen) genDelete(T string) (opT, bool) {
 			}
 			return ef.subset, nil
 		})
+	}
+	if st := subqTable(op); st != "" {
+		g.srcForm(&op, st, 30)
 	}
 	_, err := g.simulate(op)
 	return op, err == nil
@@ -729,6 +986,15 @@ func (g *gen) genJoin(kind, L, R string) (opT, bool) {
 				}
 				op.Set = append(op.Set, setT{T: it.t, C: it.c, E: g.expr(g.kinds[it.t][it.c], bs, ex)})
 			}
+		}
+		onlyRead := true
+		for _, t := range op.Targets {
+			if t == R {
+				onlyRead = false
+			}
+		}
+		if onlyRead {
+			g.srcForm(&op, R, 22)
 		}
 		base := op.Where
 		if g.pct("where", 70) {
@@ -817,7 +1083,7 @@ func (g *gen) genReplace(T string) (opT, bool) {
 		if len(cols) == 0 {
 			cols = tb.Cols
 		}
-		room := maxRows - len(tb.Rows)
+		room := g.maxRows - len(tb.Rows)
 		n := g.rng("nrep", 1, 3)
 		misses := 0
 		for i := 0; i < n; i++ {
@@ -879,7 +1145,7 @@ func (g *gen) genRepsel(T, O string) (opT, bool) {
 	if len(keys) == 0 {
 		return opT{}, false
 	}
-	room := maxRows - len(g.m.tabs[T].Rows)
+	room := g.maxRows - len(g.m.tabs[T].Rows)
 	g.subOuter = []bnd{{O, O}}
 	defer func() { g.subOuter = nil }()
 	for attempt := 0; attempt < 3; attempt++ {
@@ -929,6 +1195,7 @@ func (g *gen) genRepsel(T, O string) (opT, bool) {
 		if err != nil || (sub == "none" && attempt < 2) {
 			continue
 		}
+		g.srcForm(&op, O, 25)
 		return op, true
 	}
 	return opT{}, false
@@ -948,7 +1215,10 @@ func (g *gen) genAdd(T string) (opT, bool) {
 	for i := 0; i < n; i++ {
 		g.fresh++
 		a := addT{Name: fmt.Sprintf("n%d", g.fresh)}
-		kind := fw.PickU(g.t, "addkind", []string{"int", "str"})
+		kind := []string{"int", "str", "raw"}[fw.Weighted(g.t, "addkind", []int{42, 42, 16})]
+		if kind == "raw" && g.fixed[T] {
+			kind = "str"
+		}
 		switch fw.Weighted(g.t, "default", []int{30, 25, 45}) {
 		case 1:
 			d := g.lit(kind, 0)
@@ -1045,30 +1315,108 @@ func (g *gen) accept(op opT) {
 
 var opKinds = []string{"insert", "insel", "update", "updjoin", "delete", "deljoin", "replace", "repsel", "add", "drop", "rename", "commit", "rollback"}
 
+// fileFormat draws the format of a file table; JSON and LTSV cannot hold a table
+// without records, an LTSV value cannot hold a tab or a line break.
+func fileFormat(t *rapid.T, tb *table, m *model) string {
+	w := []int{34, 12, 16, 8, 10, 20}
+	if len(tb.Rows) == 0 {
+		w[2], w[3], w[4] = 0, 0, 0
+	}
+	// (statements copy texts from one table into the other: what LTSV cannot hold must be in neither)
+	anyCtl, anyColon := false, false
+	for _, n := range m.names() {
+		anyCtl = anyCtl || hasCtl(m.tabs[n])
+		anyColon = anyColon || hasColon(m.tabs[n])
+	}
+	if anyCtl {
+		w[4] = 0
+	}
+	if tb.col("p") >= 0 {
+		w[5] = 0 // a fixed-length field cannot hold the odd texts (leading / trailing spaces, line breaks)
+	}
+	if w[4] > 0 && anyColon && avoid("ltsv", avoidLTSVValueColonLost) {
+		w[4] = 0
+		fw.AddExtra("generator_excluded_known:ltsv_table_with_colon_in_a_value", 1)
+	}
+	return []string{"", "tsv", "json", "jsonl", "ltsv", "fixed"}[fw.Weighted(t, "format", w)]
+}
+
+const fixedWidth = 30 // explicit positions: every field is this wide (no generated value is longer than 24 bytes)
+
+// fixedPositions draws the delimiter positions of a fixed-length table: found
+// from the spaces of the file (SPACES) or given explicitly, one per column.
+func fixedPositions(t *rapid.T, tb *table) string {
+	// SPACES (positions found from the blanks of the file) is not generated: the detection is a
+	// heuristic that cannot tell a NULL cell from a gap, so a re-read table may legitimately
+	// differ; a pinned case covers the one SPACES shape that is unambiguous.
+	var ps []string
+	for i := range tb.Cols {
+		ps = append(ps, strconv.Itoa((i+1)*fixedWidth))
+	}
+	return "[" + strings.Join(ps, ", ") + "]"
+}
+
+// explicitPositions: the number of explicit delimiter positions (0: none / SPACES).
+func explicitPositions(pos string) int {
+	if !strings.HasPrefix(pos, "[") {
+		return 0
+	}
+	return len(strings.Split(pos, ","))
+}
+
+// isJSON: the formats without a header line (the column names live in the records).
+func isJSON(f string) bool { return f == "json" || f == "jsonl" || f == "ltsv" }
+
 func genCase(t *rapid.T) histCase {
-	g := &gen{t: t, m: &model{tabs: map[string]*table{}}, kinds: map[string]map[string]string{}, tk: map[string]string{}}
+	g := &gen{t: t, m: &model{tabs: map[string]*table{}}, kinds: map[string]map[string]string{}, tk: map[string]string{}, maxRows: maxRows, subqPct: 100}
 	c := histCase{TKind: []string{"file", "temp", "stdin"}[fw.Weighted(t, "tkind", []int{40, 30, 30})]}
 	g.tk["t"] = c.TKind
 	g.initTable("t")
-	tables := []string{"t"}
 	if fw.Pct(t, "two", 75) {
 		c.UKind = fw.PickU(t, "ukind", []string{"file", "temp"})
 		g.tk["u"] = c.UKind
 		g.initTable("u")
-		tables = append(tables, "u")
+	}
+	if c.TKind == "file" {
+		if c.TFmt = fileFormat(t, g.m.tabs["t"], g.m); c.TFmt == "fixed" {
+			c.TPos = fixedPositions(t, g.m.tabs["t"])
+		} else {
+			c.TNew = fw.Pct(t, "created", 22)
+		}
+	}
+	if c.UKind == "file" {
+		if c.UFmt = fileFormat(t, g.m.tabs["u"], g.m); c.UFmt == "fixed" {
+			c.UPos = fixedPositions(t, g.m.tabs["u"])
+		} else {
+			c.UNew = fw.Pct(t, "created", 22)
+		}
 	}
 	c.T = g.m.tabs["t"].clone()
 	if c.UKind != "" {
 		c.U = g.m.tabs["u"].clone()
 	}
-	g.committed, g.ckinds = g.m.clone(), copyKinds(g.kinds)
+	g.history(&c, fw.Range(t, "steps", 3, maxSteps), []int{11, 8, 14, 11, 9, 9, 9, 5, 8, 4, 3, 5, 4})
+	return c
+}
 
-	steps := fw.Range(t, "steps", 3, maxSteps)
-	weights := []int{11, 8, 14, 11, 9, 9, 9, 5, 8, 4, 3, 5, 4}
+// history draws the operations of a case whose tables are initialised.
+func (g *gen) history(c *histCase, steps int, weights []int) {
+	t := g.t
+	tables := []string{"t"}
+	if c.UKind != "" {
+		tables = append(tables, "u")
+	}
+	g.noCtl = (c.TKind == "file" && c.TFmt == "ltsv") || (c.UKind == "file" && c.UFmt == "ltsv")
+	g.fixed = map[string]bool{"t": c.TKind == "file" && c.TFmt == "fixed", "u": c.UKind == "file" && c.UFmt == "fixed"}
+	jsonTabs := map[string]bool{"t": c.TKind == "file" && isJSON(c.TFmt), "u": c.UKind == "file" && isJSON(c.UFmt)}
+	g.committed, g.ckinds = g.m.clone(), copyKinds(g.kinds)
+	// a table made by CREATE TABLE in this transaction disappears with ROLLBACK: none is generated before the first COMMIT
+	pendingCreate := c.anyCreated()
+	weights = append([]int(nil), weights...)
 	if len(tables) == 1 {
 		weights[3], weights[5] = 0, 0
 	}
-	for len(g.ops) < steps {
+	for guard := 0; len(g.ops) < steps && guard < 8*steps+20; guard++ {
 		kind := opKinds[fw.Weighted(t, "op", weights)]
 		T := "t"
 		if len(tables) == 2 && fw.Pct(t, "target_u", 35) {
@@ -1081,9 +1429,19 @@ func genCase(t *rapid.T) histCase {
 		if kind != "commit" && kind != "rollback" && avoid("stdin", avoidStdinSecondDMLLockTimeout) && g.stdinDirty {
 			touches := g.tk[T] == "stdin" || ((kind == "updjoin" || kind == "deljoin") && g.tk[O] == "stdin")
 			if touches {
-				if fw.Pct(t, "boundary_commit", 75) {
+				jsonEmpty := false
+				for _, tn := range tables {
+					if jsonTabs[tn] && len(g.m.tabs[tn].Rows) == 0 {
+						jsonEmpty = true
+					}
+				}
+				switch {
+				case jsonEmpty && pendingCreate:
+					continue
+				case (fw.Pct(t, "boundary_commit", 75) || pendingCreate) && !jsonEmpty:
 					g.accept(opT{K: "commit"})
-				} else {
+					pendingCreate = false
+				default:
 					g.accept(opT{K: "rollback"})
 				}
 				if len(g.ops) >= steps {
@@ -1116,10 +1474,26 @@ func genCase(t *rapid.T) histCase {
 			op, ok = g.genRename(T)
 		case "commit", "rollback":
 			op, ok = opT{K: kind}, true
+			if kind == "commit" {
+				// a JSON file cannot hold a table without records (the column names would be lost)
+				for _, tn := range tables {
+					if jsonTabs[tn] && len(g.m.tabs[tn].Rows) == 0 {
+						ok = false
+					}
+				}
+				if !ok {
+					fw.AddExtra("generator_skipped:commit_of_empty_json_table", 1)
+					continue
+				}
+				pendingCreate = false
+			} else if pendingCreate {
+				fw.AddExtra("generator_skipped:rollback_of_created_table", 1)
+				continue
+			}
 		}
 		if !ok {
 			// fall back to statements that are always available
-			if len(g.m.tabs[T].Rows) >= maxRows/2 {
+			if len(g.m.tabs[T].Rows) >= g.maxRows/2 || (g.bulk && fw.Pct(t, "fallback_delete", 50)) {
 				op, ok = g.genDelete(T)
 			} else {
 				op, ok = g.genInsert(T)
@@ -1131,7 +1505,7 @@ func genCase(t *rapid.T) histCase {
 				continue
 			}
 		}
-		if kind != "commit" && kind != "rollback" && fw.Pct(t, "wrap", 35) {
+		if op.K != "commit" && op.K != "rollback" && fw.Pct(t, "wrap", 35) {
 			n := 1
 			if fw.Pct(t, "wrap2", 35) {
 				n = 2
@@ -1140,10 +1514,16 @@ func genCase(t *rapid.T) histCase {
 				op.Wrap = append(op.Wrap, []string{"if", "case", "while", "func"}[fw.Weighted(t, "wrapper", []int{30, 20, 25, 25})])
 			}
 		}
+		switch op.K {
+		case "insert", "insel", "update", "updjoin", "delete", "deljoin", "replace", "repsel":
+			// a prepared statement with every literal a placeholder, alone or innermost in the control flow
+			if fw.Pct(t, "prepared", 14) {
+				op.Wrap = append(op.Wrap, "prep")
+			}
+		}
 		g.accept(op)
 	}
 	c.Ops = g.ops
-	return c
 }
 
 // ---------------------------------------------------------------------
@@ -1169,15 +1549,27 @@ func expectations(c histCase) ([]stepExp, string) {
 	cur := c.model()
 	committed := cur.clone()
 	stdinDirty := false
+	pendingCreate := c.anyCreated()
 	var steps []stepExp
 	for _, op := range c.Ops {
 		st := stepExp{op: op}
 		switch op.K {
 		case "commit":
+			for t, f := range nm.ffmt {
+				if isJSON(f) && cur.tabs[t] != nil && len(cur.tabs[t].Rows) == 0 {
+					// a JSON file without records holds no column names: the format cannot represent the table
+					return steps, "commit of an empty table in a format without header line"
+				}
+			}
 			committed = cur.clone()
 			st.committed = committed.clone()
 			stdinDirty = false
+			pendingCreate = false
 		case "rollback":
+			if pendingCreate {
+				// the table made by CREATE TABLE in this transaction is discarded: nothing left to compare
+				return steps, "rollback of a created table"
+			}
 			cur = committed.clone()
 			stdinDirty = false
 		default:
@@ -1213,17 +1605,37 @@ func expectations(c histCase) ([]stepExp, string) {
 	return steps, ""
 }
 
-func csvText(tb *table) string {
+func csvText(tb *table) string { return delimitedText(tb, ",") }
+
+// delimitedText: CSV / TSV text of a table: NULL is an empty field; a cell that is
+// not a plain word is enclosed in double quotes (quotes doubled), the empty string is "".
+func delimitedText(tb *table, delim string) string {
+	plain := func(s string) bool {
+		if s == "" {
+			return false
+		}
+		for i := 0; i < len(s); i++ {
+			c := s[i]
+			if !(c == '_' || c == '-' || c == '.' || (c >= '0' && c <= '9') || (c >= 'a' && c <= 'z') || (c >= 'A' && c <= 'Z')) {
+				return false
+			}
+		}
+		return true
+	}
 	var b strings.Builder
-	b.WriteString(strings.Join(tb.Cols, ","))
+	b.WriteString(strings.Join(tb.Cols, delim))
 	b.WriteString("\n")
 	for _, r := range tb.Rows {
 		for i, v := range r {
 			if i > 0 {
-				b.WriteString(",")
+				b.WriteString(delim)
 			}
-			if !v.IsNull() {
+			switch {
+			case v.IsNull():
+			case plain(v.S):
 				b.WriteString(v.S)
+			default:
+				b.WriteString(`"` + strings.ReplaceAll(v.S, `"`, `""`) + `"`)
 			}
 		}
 		b.WriteString("\n")
@@ -1231,10 +1643,115 @@ func csvText(tb *table) string {
 	return b.String()
 }
 
+// jsonText: a JSON array of objects (one line per object without the array for
+// JSON Lines); integer cells are numbers, other cells strings, NULL is null.
+func jsonText(tb *table, lines bool) string {
+	var objs []string
+	for _, r := range tb.Rows {
+		var fs []string
+		for i, v := range r {
+			k, _ := json.Marshal(tb.Cols[i])
+			x := "null"
+			switch {
+			case v.IsNull():
+			case v.K == "I":
+				x = v.S
+			default:
+				j, _ := json.Marshal(v.S)
+				x = string(j)
+			}
+			fs = append(fs, string(k)+":"+x)
+		}
+		objs = append(objs, "{"+strings.Join(fs, ",")+"}")
+	}
+	if lines {
+		return strings.Join(objs, "\n") + "\n"
+	}
+	return "[" + strings.Join(objs, ",\n") + "]\n"
+}
+
+// fixedText: a fixed-length file with a header line; NULL is a blank field. With
+// explicit positions every field is fixedWidth wide, with SPACES a field is as wide
+// as its longest text and fields are separated by one space.
+func fixedText(tb *table, pos string) string {
+	widths := make([]int, len(tb.Cols))
+	for i, c := range tb.Cols {
+		widths[i] = len(c)
+	}
+	for _, r := range tb.Rows {
+		for i, v := range r {
+			if !v.IsNull() && len(v.S) > widths[i] {
+				widths[i] = len(v.S)
+			}
+		}
+	}
+	sep := " "
+	if explicitPositions(pos) > 0 {
+		sep = ""
+		for i := range widths {
+			widths[i] = fixedWidth
+		}
+	}
+	var b strings.Builder
+	line := func(cells []string) {
+		for i, c := range cells {
+			if i > 0 {
+				b.WriteString(sep)
+			}
+			b.WriteString(c + strings.Repeat(" ", widths[i]-len(c)))
+		}
+		b.WriteString("\n")
+	}
+	line(tb.Cols)
+	for _, r := range tb.Rows {
+		cells := make([]string, len(r))
+		for i, v := range r {
+			if !v.IsNull() {
+				cells[i] = v.S
+			}
+		}
+		line(cells)
+	}
+	return b.String()
+}
+
+func fileText(tb *table, format string) string {
+	switch format {
+	case "tsv":
+		return delimitedText(tb, "\t")
+	case "json":
+		return jsonText(tb, false)
+	case "jsonl":
+		return jsonText(tb, true)
+	case "fixed":
+		panic("fixed-length text needs the positions: fixedText")
+	case "ltsv":
+		var b strings.Builder
+		for _, r := range tb.Rows {
+			for i, v := range r {
+				if i > 0 {
+					b.WriteString("\t")
+				}
+				b.WriteString(tb.Cols[i] + ":")
+				if !v.IsNull() {
+					b.WriteString(v.S)
+				}
+			}
+			b.WriteString("\n")
+		}
+		return b.String()
+	}
+	return csvText(tb)
+}
+
 func showTable(cols []string, rows [][]val.Val) string {
 	var b strings.Builder
 	b.WriteString("      " + strings.Join(cols, "|") + "\n")
-	for _, r := range rows {
+	for i, r := range rows {
+		if i >= 24 {
+			b.WriteString(fmt.Sprintf("      ... (%d records in all)\n", len(rows)))
+			break
+		}
 		var cs []string
 		for _, v := range r {
 			cs = append(cs, v.String())
@@ -1273,10 +1790,34 @@ func diffTable(want *table, got run.Tbl) string {
 	}
 	for i := range want.Rows {
 		if !rowEqual(want.Rows[i], got.Rows[i]) {
-			return fmt.Sprintf("row %d differs", i+1)
+			return fmt.Sprintf("row %d differs: got %v, expected %v", i+1, got.Rows[i], want.Rows[i])
 		}
 	}
 	return ""
+}
+
+// colonsLost: got is want except that cells holding colons came back without them.
+func colonsLost(want *table, got run.Tbl) bool {
+	if len(want.Rows) != len(got.Rows) || strings.Join(want.Cols, "\x00") != strings.Join(got.Header, "\x00") {
+		return false
+	}
+	lost := false
+	for i := range want.Rows {
+		if len(want.Rows[i]) != len(got.Rows[i]) {
+			return false
+		}
+		for j, w := range want.Rows[i] {
+			g := got.Rows[i][j]
+			switch {
+			case cellEq(w, g):
+			case !w.IsNull() && !g.IsNull() && strings.Contains(w.S, ":") && strings.ReplaceAll(w.S, ":", "") == g.S:
+				lost = true
+			default:
+				return false
+			}
+		}
+	}
+	return lost
 }
 
 // samePrefixPermutedTail: got equals want on the first n rows and holds the
@@ -1341,6 +1882,19 @@ type runner struct {
 	trace []string
 
 	shortWait bool
+	mismatch  map[string]bool   // during COMMIT: fixed-length tables whose number of columns is not the number of explicit positions
+	stop      bool              // the history ends here without a verdict on the rest (an admissible refusal)
+	onDisk    map[string]string // file tables: the bytes on disk after the last successful COMMIT (or the initial file)
+}
+
+func (r *runner) readDisk() {
+	r.onDisk = map[string]string{}
+	for t, k := range r.nm.kind {
+		if k == "file" {
+			b, _ := os.ReadFile(filepath.Join(r.dir, t+r.nm.fileExt(t)))
+			r.onDisk[t] = string(b)
+		}
+	}
 }
 
 func (r *runner) note(format string, args ...interface{}) {
@@ -1359,7 +1913,7 @@ func (r *runner) pathTable(p string) string {
 	for t, k := range r.nm.kind {
 		switch k {
 		case "file":
-			if filepath.Base(p) == t+".csv" {
+			if filepath.Base(p) == t+r.nm.fileExt(t) {
 				return t
 			}
 		case "stdin":
@@ -1404,6 +1958,15 @@ func (r *runner) compareAll(st stepExp) *fw.Violation {
 		switch {
 		case !isTarget[t] && st.ef != nil:
 			sig = st.op.K + "_changed_other_table"
+		case st.op.K == "commit" && r.mismatch[t]:
+			sig = "fixed_positions_field_count"
+			d += fmt.Sprintf(" (COMMIT wrote %d columns with the %d delimiter positions %s and reported success)", len(want.Cols), explicitPositions(r.nm.fixedPos(t)), r.nm.fixedPos(t))
+		case st.op.K == "commit" && r.nm.fixedPos(t) == "SPACES" && len(got.Header) < len(want.Cols):
+			sig = "fixed_spaces_positions_reused"
+			d += " (the table was read with positions found from the spaces of the file and written with those positions, without separating spaces)"
+		case r.nm.kind[t] == "file" && r.nm.ffmt[t] == "ltsv" && colonsLost(want, got):
+			sig = "ltsv_value_colon_lost"
+			d += " (the cells that differ are the expected texts without their colons)"
 		case (st.op.K == "replace" || st.op.K == "repsel") && st.ef.appended >= 2 && samePrefixPermutedTail(want, got, len(want.Rows)-st.ef.appended):
 			sig = "replace_unmatched_order"
 			d = fmt.Sprintf("the %d given rows without a matching record were appended in another order than given", st.ef.appended)
@@ -1419,12 +1982,20 @@ func (r *runner) start() *fw.Violation {
 		return fw.Harness("mkdir: %v", err)
 	}
 	m := r.c.model()
+	created := r.c.created()
 	files := map[string]string{}
 	opt := run.Opt{Dir: r.dir, CPU: r.cpu, CaptureOut: true}
 	for _, t := range m.names() {
 		switch r.nm.kind[t] {
 		case "file":
-			files[t+".csv"] = csvText(m.tabs[t])
+			if created[t] {
+				continue
+			}
+			if r.nm.ffmt[t] == "fixed" {
+				files[t+r.nm.fileExt(t)] = fixedText(m.tabs[t], r.nm.pos[t])
+			} else {
+				files[t+r.nm.fileExt(t)] = fileText(m.tabs[t], r.nm.ffmt[t])
+			}
 		case "stdin":
 			opt.HasStdin, opt.Stdin = true, csvText(m.tabs[t])
 			if r.shortWait {
@@ -1467,11 +2038,40 @@ func (r *runner) start() *fw.Violation {
 		return fw.Harness("set-up COMMIT failed: %v", res.Err)
 	}
 	for _, t := range m.names() {
+		if !created[t] {
+			continue
+		}
+		tb := m.tabs[t]
+		setup := []string{fmt.Sprintf("CREATE TABLE %s (%s);", r.nm.tref(t, true), strings.Join(tb.Cols, ", "))}
+		for _, row := range tb.Rows {
+			var vs []string
+			for _, v := range row {
+				vs = append(vs, v.SQL())
+			}
+			setup = append(setup, fmt.Sprintf("INSERT INTO %s VALUES (%s);", r.nm.tref(t, true), strings.Join(vs, ", ")))
+		}
+		for i, q := range setup {
+			if res := s.Exec(q); res.Err != nil {
+				if i > 0 {
+					// INSERT VALUES into the table this transaction created is a statement of the property
+					return fw.V("insert_into_created_table_error", "%q after CREATE TABLE in the same transaction failed: %s %v", q, run.ErrClass(res.Err), res.Err)
+				}
+				return fw.Harness("set-up statement %q failed: %v", q, res.Err)
+			}
+		}
+	}
+	for _, t := range m.names() {
 		got, err := r.selectAll(s, t)
 		if err != nil {
+			if created[t] {
+				return fw.V("select_created_table_error", "SELECT * FROM %s after CREATE TABLE and %d INSERT statements in the same transaction failed: %v", t, len(m.tabs[t].Rows), err)
+			}
 			return fw.Harness("initial SELECT * FROM %s failed: %v", t, err)
 		}
 		if d := diffTable(m.tabs[t], got); d != "" {
+			if created[t] {
+				return fw.V("insert_into_created_table_result", "table %s after CREATE TABLE and %d single-row INSERT statements in the same transaction: %s\n    got\n%s    expected\n%s", t, len(m.tabs[t].Rows), d, showTable(got.Header, got.Rows), showTable(m.tabs[t].Cols, m.tabs[t].Rows))
+			}
 			return fw.Harness("initial table %s is not the generated one: %s", t, d)
 		}
 	}
@@ -1501,6 +2101,34 @@ func (r *runner) step(st stepExp) *fw.Violation {
 	if res.ParseErr {
 		return fw.Harness("generated statement does not parse: %s: %v", st.text(), res.Err)
 	}
+	// a fixed-length table with explicit delimiter positions whose number of columns is no
+	// longer the number of positions cannot be written with those positions
+	var mismatch []string
+	if st.op.K == "commit" {
+		for _, t := range st.committed.names() {
+			if n := explicitPositions(r.nm.fixedPos(t)); n > 0 && n != len(st.committed.tabs[t].Cols) {
+				mismatch = append(mismatch, t)
+			}
+		}
+	}
+	r.mismatch = map[string]bool{}
+	for _, t := range mismatch {
+		r.mismatch[t] = true
+	}
+	if res.Err != nil && len(mismatch) > 0 && strings.Contains(res.Err.Error(), "data encode error") {
+		// admissible: COMMIT refuses to write the table; then its file is as it was
+		// (the files of other tables of the transaction may have been written before the refusal:
+		// whether COMMIT is all-or-nothing over several files is not this property's business)
+		for _, t := range mismatch {
+			b, _ := os.ReadFile(filepath.Join(r.dir, t+r.nm.fileExt(t)))
+			if string(b) != r.onDisk[t] {
+				return fw.V("refused_commit_changed_file", "COMMIT failed (%v) but file %s changed:\n    before %q\n    after  %q%s", res.Err, t+r.nm.fileExt(t), r.onDisk[t], b, r.tail())
+			}
+		}
+		fw.AddExtra("history_end:commit_refused_fixed_positions", 1)
+		r.stop = true
+		return nil
+	}
 	if res.Err != nil {
 		msg := res.Err.Error()
 		sig := st.op.K + "_error"
@@ -1529,13 +2157,32 @@ func (r *runner) step(st stepExp) *fw.Violation {
 			got, err := r.selectAll(fs, t)
 			fs.Close()
 			if err != nil {
+				for _, mt := range mismatch {
+					if mt == t {
+						return fw.V("fixed_positions_field_count", "after a COMMIT that reported success a fresh session cannot read %s (%d columns written with the %d delimiter positions %s): %v%s", t, len(st.committed.tabs[t].Cols), explicitPositions(r.nm.fixedPos(t)), r.nm.fixedPos(t), err, r.tail())
+					}
+				}
 				return fw.V("commit_file_unreadable", "after COMMIT a fresh session cannot read %s: %v%s", t, err, r.tail())
 			}
 			if d := diffTable(st.committed.tabs[t], got); d != "" {
-				b, _ := os.ReadFile(filepath.Join(r.dir, t+".csv"))
-				return fw.V("commit_file_differs", "file %s.csv re-read by a fresh session after COMMIT: %s\n    got\n%s    expected\n%s    file: %q%s", t, d, showTable(got.Header, got.Rows), showTable(st.committed.tabs[t].Cols, st.committed.tabs[t].Rows), b, r.tail())
+				b, _ := os.ReadFile(filepath.Join(r.dir, t+r.nm.fileExt(t)))
+				if len(b) > 1500 {
+					b = append(b[:1500:1500], "..."...)
+				}
+				sig := "commit_file_differs"
+				if r.nm.ffmt[t] == "ltsv" && colonsLost(st.committed.tabs[t], got) {
+					sig = "ltsv_value_colon_lost"
+				}
+				for _, mt := range mismatch {
+					if mt == t {
+						sig = "fixed_positions_field_count"
+						d += fmt.Sprintf(" (COMMIT wrote %d columns with the %d delimiter positions %s and reported success)", len(st.committed.tabs[t].Cols), explicitPositions(r.nm.fixedPos(t)), r.nm.fixedPos(t))
+					}
+				}
+				return fw.V(sig, "file %s re-read by a fresh session after COMMIT: %s\n    got\n%s    expected\n%s    file: %q%s", t+r.nm.fileExt(t), d, showTable(got.Header, got.Rows), showTable(st.committed.tabs[t].Cols, st.committed.tabs[t].Rows), b, r.tail())
 			}
 		}
+		r.readDisk()
 		return nil
 	case "rollback":
 		return r.compareAll(st)
@@ -1543,8 +2190,9 @@ func (r *runner) step(st stepExp) *fw.Violation {
 	ef := st.ef
 	if ef.verb != "" {
 		// the reported number of affected records
-		// (statements inside blocks run on child processors, which do not store it: there only the log line)
-		if len(st.op.Wrap) == 0 && res.Affected != ef.total {
+		// (statements inside blocks run on child processors, which do not store it: there only the log line;
+		// EXECUTE of a prepared statement runs it on the processor of the EXECUTE statement)
+		if (len(st.op.Wrap) == 0 || (len(st.op.Wrap) == 1 && st.op.Wrap[0] == "prep")) && res.Affected != ef.total {
 			return fw.V(st.op.K+"_count", "%q reported %d affected records; the statement %s %d%s", st.text(), res.Affected, ef.verb, ef.total, r.tail())
 		}
 		seen := map[string]bool{}
@@ -1579,9 +2227,13 @@ func runHistory(c histCase, steps []stepExp, cpu int) *fw.Violation {
 	if v := r.start(); v != nil {
 		return v
 	}
+	r.readDisk()
 	for _, st := range steps {
 		if v := r.step(st); v != nil {
 			return v
+		}
+		if r.stop {
+			break
 		}
 	}
 	return nil
@@ -1590,7 +2242,10 @@ func runHistory(c histCase, steps []stepExp, cpu int) *fw.Violation {
 var tokenOf = map[string]string{"insert": "I", "insel": "Is", "update": "U", "updjoin": "Uj", "delete": "D", "deljoin": "Dj",
 	"replace": "R", "repsel": "Rs", "add": "A", "drop": "X", "rename": "N", "commit": "C", "rollback": "B"}
 
-func checkHist(c histCase) (fw.Outcome, *fw.Violation) {
+func checkHist(c histCase) (fw.Outcome, *fw.Violation) { return checkHistRule(c, false) }
+
+// checkHistRule: bulk selects the non-trivial rule of the bulk sub-check.
+func checkHistRule(c histCase, bulk bool) (fw.Outcome, *fw.Violation) {
 	o := fw.Outcome{}
 	class := func(s string) { o.Classes = append(o.Classes, s) }
 	if c.T == nil || (c.TKind != "file" && c.TKind != "temp" && c.TKind != "stdin") || (c.UKind != "" && (c.U == nil || (c.UKind != "file" && c.UKind != "temp"))) {
@@ -1627,12 +2282,42 @@ func checkHist(c histCase) (fw.Outcome, *fw.Violation) {
 		class("u:none")
 	}
 
-	for _, cpu := range []int{1, 4} {
+	cpu2 := c.CPU
+	if cpu2 < 2 || cpu2 > 16 {
+		cpu2 = 4
+	}
+	par0 := atomic.LoadInt64(&query.VerifParallelTasks)
+	for _, cpu := range []int{1, cpu2} {
 		if v := runHistory(c, steps, cpu); v != nil {
 			return o, v
 		}
 	}
 	o.Evals = 2
+	parallel := atomic.LoadInt64(&query.VerifParallelTasks) > par0
+	for _, f := range []string{c.naming().ffmt["t"], c.naming().ffmt["u"]} {
+		if f != "" {
+			class("format:" + f)
+		}
+	}
+	for _, tn := range []string{"t", "u"} {
+		if p := c.naming().fixedPos(tn); p != "" {
+			if explicitPositions(p) > 0 {
+				class("fixed:explicit_positions")
+			} else {
+				class("fixed:spaces")
+			}
+		}
+	}
+	for tn, is := range c.created() {
+		if is {
+			class("created_table:" + tn)
+		}
+	}
+	for tn, tb := range map[string]*table{"t": c.T, "u": c.U} {
+		if tb != nil && tb.col("p") >= 0 {
+			class("payload_column:" + c.naming().kind[tn])
+		}
+	}
 
 	// classes and the non-trivial rule
 	var toks []string
@@ -1674,9 +2359,29 @@ func checkHist(c histCase) (fw.Outcome, *fw.Violation) {
 					class("subq:in_select_list")
 				}
 			}
+			for _, row := range st.op.Rows {
+				for _, x := range row {
+					if hasSubq(x, reads, &corr) {
+						any = true
+						class("subq:in_values")
+					} else if len(x.A) > 0 {
+						class(st.op.K + ":value_expression")
+					}
+				}
+			}
 			if st.op.Where != nil && hasSubq(*st.op.Where, reads, &corr) {
 				any = true
 				class("subq:in_where")
+			}
+			for _, k := range []string{"insub", "exists"} {
+				if st.op.Where != nil && hasSubqPred(*st.op.Where, k) {
+					class("subq:" + map[string]string{"insub": "in_subquery", "exists": "exists"}[k])
+				}
+			}
+			if st.op.Src != "" {
+				class("src:" + st.op.Src)
+				class("src:" + st.op.Src + ":" + st.op.K)
+				tok += "[" + st.op.Src[:1] + "]"
 			}
 			if any {
 				tok += "q"
@@ -1768,9 +2473,12 @@ func checkHist(c histCase) (fw.Outcome, *fw.Violation) {
 	if cut != "" {
 		class("history_cut")
 	}
-	if changing >= 3 && len(kinds) >= 2 && strict {
+	if (!bulk && changing >= 3 && len(kinds) >= 2 && strict) || (bulk && parallel && changing >= 1 && strict) {
 		class("nontrivial")
-		o.Fingerprint = c.TKind + "/" + c.UKind + ":" + strings.Join(toks, " ")
+		o.Fingerprint = c.TKind + c.TFmt + "/" + c.UKind + c.UFmt + ":" + strings.Join(toks, " ")
+	}
+	if parallel {
+		class("parallel_tasks")
 	}
 	return o, nil
 }
@@ -1779,15 +2487,20 @@ func TestC05History(t *testing.T) {
 	fw.Run(t, fw.Spec[histCase]{
 		ID: "C05", Name: "dml_history", Quick: 10000, Thorough: 200000,
 		Gen: genCase, Check: checkHist,
-		Rule: "tables t (CSV file, temporary table or STDIN) and optionally u (file or temporary table), 2-4 columns (integer-like id/v/w, string s; NULLs, duplicate ids), 0-6 rows, and a history of 3-12 statements generated up front next to a live copy of the model: INSERT VALUES (column subset / permuted list), INSERT SELECT (expressions, WHERE, ORDER BY on a total order; other table or itself), UPDATE (1-2 SET items), scalar subqueries (SUM/MAX/MIN/COUNT/single value over the target or the other table, optionally correlated) in SET values, WHERE clauses of UPDATE/DELETE and in INSERT/REPLACE..SELECT (all read the state before the statement), UPDATE..FROM (JOIN / LEFT JOIN / comma join, aliases, one or two targets), DELETE, multi-table DELETE, REPLACE USING(1-2 keys) VALUES / SELECT, ALTER TABLE ADD (one/several, DEFAULT literal/expression, FIRST/LAST/BEFORE/AFTER) / DROP / RENAME, COMMIT, ROLLBACK; 35% of the data-changing statements run inside control flow executing them exactly once (IF, CASE, WHILE with a counter, a user function body called once; nested up to two deep), the model being that of the bare statement; predicates (relational operators, AND/OR/NOT, IS NULL, IN, arithmetic) are aimed at strict non-empty subsets. Each history is executed statement by statement on one in-process session at --cpu 1 and again at --cpu 4; after every step SELECT * of every table equals the model (column names and order, row order, cell text, NULL-ness), Tx.AffectedRows and the 'N record(s) <verb> on <table>' log lines equal the model's inserted/matched/removed counts; after COMMIT every file re-read by a fresh session equals the model; after ROLLBACK the model is the last committed state. Non-trivial = at least 3 data-changing steps of at least 2 kinds, one of which matches a strict non-empty subset of its target's rows; distinct by (table kinds, sequence of rule names with their match class)",
+		Rule: "tables t (file, temporary table or STDIN) and optionally u (file or temporary table); a file is CSV (34%), TSV, JSON, JSON Lines (JSON holds integers as numbers, so the cells are typed there), LTSV (then no generated text holds a tab or a line break, which an LTSV value cannot hold) or fixed-length text named in every statement by the table object FIXED('[30, 60, ...]', `t.txt`) with one explicit delimiter position per initial column (tables without the payload column only); 22% of the file tables do not exist beforehand but are made by CREATE TABLE and filled by INSERT inside the session, uncommitted when the history starts (no ROLLBACK is generated before the first COMMIT then: it would discard the table); 2-5 columns (integer-like id/v/w, string s; NULLs, duplicate ids; in 35% of the tables a payload column p of odd cell texts - leading zeros, decimals, spaces, delimiters, quotes, line breaks, non-ASCII, 'NULL', 'true', a datetime, 40 digits - which no predicate and no expression reads: it is only inserted, copied whole or left alone), 0-6 rows, and a history of 3-12 statements generated up front next to a live copy of the model: INSERT VALUES (column subset / permuted list; a value may be arithmetic on literals or an uncorrelated scalar aggregate subquery over the target or the other table), INSERT SELECT (expressions, WHERE, ORDER BY on a total order; other table or itself), UPDATE (1-2 SET items), scalar subqueries (SUM/MAX/MIN/COUNT/single value over the target or the other table, optionally correlated) in SET values, WHERE clauses of UPDATE/DELETE and in INSERT/REPLACE..SELECT, [NOT] IN (subquery) and [NOT] EXISTS (correlated or not) in the WHERE clauses of UPDATE/DELETE/INSERT..SELECT/REPLACE..SELECT (all read the state before the statement); a table the statement only reads (the source of INSERT/REPLACE..SELECT, the non-target table of a join form, the table of the subqueries) is reached directly, through WITH c05ct AS (SELECT * FROM tab) in front of the statement or through a derived table (SELECT * FROM tab) in the FROM clause; UPDATE..FROM (JOIN / LEFT JOIN / comma join, aliases, one or two targets), DELETE, multi-table DELETE, REPLACE USING(1-2 keys) VALUES / SELECT, ALTER TABLE ADD (one/several, DEFAULT literal/expression, FIRST/LAST/BEFORE/AFTER) / DROP / RENAME, COMMIT, ROLLBACK; 35% of the data-changing statements run inside control flow executing them exactly once (IF, CASE, WHILE with a counter, a user function body called once; nested up to two deep), 14% of the INSERT/UPDATE/DELETE/REPLACE statements are PREPAREd with every literal turned into a positional placeholder and EXECUTEd USING the literals (alone or innermost in the control flow), the model being that of the bare statement; predicates (relational operators, AND/OR/NOT, IS NULL, IN, arithmetic) are aimed at strict non-empty subsets. Each history is executed statement by statement on one in-process session at --cpu 1 and again at --cpu 4; after every step SELECT * of every table equals the model (column names and order, row order, cell text, NULL-ness), Tx.AffectedRows and the 'N record(s) <verb> on <table>' log lines equal the model's inserted/matched/removed counts; after COMMIT every file (in its format) re-read by a fresh session equals the model; after ROLLBACK the model is the last committed state. Non-trivial = at least 3 data-changing steps of at least 2 kinds, one of which matches a strict non-empty subset of its target's rows; distinct by (table kinds and file formats, sequence of rule names with their match class and source form)",
 		Assumptions: []string{
 			"UPDATE counts the records matched by the condition (changed or not), per property statement; REPLACE counts the records whose key matched plus the rows appended",
 			"SET expressions never read a column assigned by another SET item of the same statement (evaluation order not documented); a record to update that is joined more than once, updating the NULL-extended side of a LEFT JOIN, ORDER BY keys with ties or NULLs, REPLACE rows with duplicate or NULL keys are outside the modelled fragment: the history is cut there (measured as history_cut:*)",
 			"a scalar subquery inside a data-changing statement reads the tables as they were before the statement (the manual says nothing else; textbook semantics); SUM returns a float whose text equals the integer sum (cells are compared by text)",
 			"a statement inside IF / CASE / WHILE / a function body changes the tables of the enclosing scopes exactly as the bare statement does (temporary-table.md, control-flow.md: only declarations are local to a block); Tx.AffectedRows is not stored by child processors, inside blocks only the log line is compared",
 			"tables keep at least two columns (a one-column record with a NULL cell is a blank CSV line: C02)",
+			"the payload column never holds the empty string (CSV/TSV without --enclose-all write it as an empty field, which is read back as NULL: a limit of the format, C02) and a table in a JSON format or in LTSV is not committed while it has no records (the column names live in the records); the generator skips such a COMMIT (measured as generator_skipped:*), a replayed history is cut there",
+			"IN (subquery) is = ANY and NOT IN is <> ALL with three-valued logic, FALSE / TRUE over no record; EXISTS is TRUE with at least one record (comparison-operators.md); WITH and derived tables over SELECT * FROM tab read tab as it was before the statement, like a direct reference",
+			"EXECUTE runs the prepared statement on the processor of the EXECUTE statement: for a prepared statement outside control flow Tx.AffectedRows is compared as for the bare statement",
 			"the row order of SELECT over one table of at most 10 rows is the table's row order at --cpu 1 and --cpu 4",
 			"avoidReplaceUnmatchedOrder: REPLACE is generated with at most one row that matches no record (known open defect: several such rows are appended in Go-map order)",
+			"a fixed-length table with explicit delimiter positions whose number of columns was changed by ALTER TABLE ADD / DROP cannot be written with those positions: COMMIT either refuses with a data encoding error and leaves the file of that table as it was (the history ends there, measured as history_end:*) or must write a file that reads back as the model; writing fewer or more fields and reporting success is the violation fixed_positions_field_count",
+			"avoidLTSVValueColonLost: no text of an LTSV table holds a colon (known open defect of the LTSV reader in the dependency go-text v1.6.0: every colon of a value after the first is dropped when the file is read, so a committed a:b comes back as ab); measured as generator_excluded_known:*",
 			"avoidStdinSecondDMLLockTimeout: the generator separates two statements that load STDIN for update by COMMIT/ROLLBACK (open defect: the second one waits for the session's own STDIN lock and fails)",
 		},
 	})
